@@ -548,6 +548,13 @@ func TestVerifC01(t *testing.T) {
 			res.Sample(map[string]interface{}{"program": prog, "impl": impl})
 		}
 		if what, tag := vC01Oracle(prog, impl); what != "" {
+			if strings.Contains(what, "TIMEOUT") && !vC01InDomain(prog) {
+				// a GENERATED program can also cut the log at or below its high watermark (random truncations) - no caller of the commit
+				// log does: the HW then names a message that is gone, and a committed reader created in that state waits for a HW
+				// change, rightly. "Not delivered" is judged only on programs in which the HW never lies beyond the log end.
+				res.Dist("timeout-outside-domain")
+				return
+			}
 			if strings.Contains(what, "TIMEOUT") {
 				// "not delivered in time" on a saturated machine is not "never delivered": the same program is run again on a fresh log
 				// and the failure must show again (a reader that really loses a message loses it every time; thorough background runs
